@@ -25,7 +25,8 @@ for mid in sorted(d for d in os.listdir(f"{V}/seeded") if os.path.isfile(f"{V}/s
         rows.append(f"| {mid} | {summ} | {meta['property']} ({r.get('wall_s')} s){note} | {how.replace('|', '/')} |")
     else:
         others = [k for k, v in (r.get("others") or {}).items() if v.get("caught")]
-        rows.append(f"| {mid} | {summ} | {meta['property']} | **not caught by the quick tier** (rc={r.get('rc')}){'; caught by ' + ','.join(others) if others else ''} |")
+        note = ("; " + r["manual_note"]) if r.get("manual_note") else ""
+        rows.append(f"| {mid} | {summ} | {meta['property']} | **not caught by the quick tier in the recorded run** (rc={r.get('rc')}){'; caught by ' + ','.join(others) if others else ''}{note} |")
 rows.append("")
 rows.append(f"{c} of {n} seeded changes are caught by the quick check of the property they were written against.  "
             "`[harness subset: ..]` = the run was restricted (`VERIF_ONLY`) to the named harnesses of that quick check to save "
